@@ -5,6 +5,7 @@
 # evidence redirected to a scratch directory, and writes
 #   coverage/functions.txt   per-function statement coverage of the library under the harness
 #   coverage/unreached.txt   library functions no run entered (the blind spots)
+#   coverage/uncovered_blocks.txt  library statements no run executed (file: line ranges)
 #   coverage/summary.txt     per-package totals
 # Exit 0 always unless the build fails (2).
 set -u
@@ -33,6 +34,22 @@ for id in $PROPS; do
 done
 go tool covdata func -i="$SCRATCH/merged" 2>/dev/null | sed -e "s#github.com/RoaringBitmap/roaring/v2/##" | grep -v "verif_hooks.go\|zz_simrt_marker\|^verif/" > coverage/functions.txt
 grep -E "[[:space:]]0\.0%$" coverage/functions.txt > coverage/unreached.txt
+go tool covdata textfmt -i="$SCRATCH/merged" -o="$SCRATCH/profile.txt" 2>/dev/null
+python3 - "$SCRATCH/profile.txt" > coverage/uncovered_blocks.txt <<'PY'
+import sys,re,collections
+# library statements no run executed, as file:firstline-lastline (adjacent blocks merged)
+blocks=collections.defaultdict(list)
+for l in open(sys.argv[1]):
+    m=re.match(r'github.com/RoaringBitmap/roaring/v2/(\S+?):(\d+)\.\d+,(\d+)\.\d+ (\d+) (\d+)$',l.strip())
+    if not m or 'verif_hooks' in m.group(1) or 'zz_simrt' in m.group(1): continue
+    if int(m.group(5))==0: blocks[m.group(1)].append((int(m.group(2)),int(m.group(3))))
+for f in sorted(blocks):
+    out=[]
+    for a,b in sorted(blocks[f]):
+        if out and a<=out[-1][1]+1: out[-1]=(out[-1][0],max(b,out[-1][1]))
+        else: out.append((a,b))
+    print(f, ' '.join('%d-%d'%(a,b) if a!=b else str(a) for a,b in out))
+PY
 go tool covdata percent -i="$SCRATCH/merged" 2>/dev/null | sed -e "s#github.com/RoaringBitmap/roaring/v2#roaring#" > coverage/summary.txt
 cat coverage/summary.txt
 echo "functions: $(grep -vc '^total' coverage/functions.txt)  unreached: $(wc -l < coverage/unreached.txt)"
